@@ -1094,8 +1094,9 @@ func (r *Runtime) regexpproto_stdSplitter(call FunctionCall) Value {
 
 	for _, result := range results {
 		if result.indexes[0] == result.indexes[1] {
-			// FIXME Ugh, this is a hack
-			if result.indexes[0] == 0 || result.indexes[0] == targetLength {
+			// An empty match at the end of the previous separator (or at the very start) does not split: the spec's
+			// loop rejects a match with e == p. It never tries to match at the end of the string either.
+			if result.indexes[0] == lastIndex || result.indexes[0] == targetLength {
 				continue
 			}
 		}
